@@ -439,7 +439,7 @@ def run_readonly(spec, out):
                 for k in [""] + uni:
                     for rname, rf in (("get_bytes", lambda s: s.get_bytes(k)), ("get_metadata", lambda s: _strip(s.get_metadata(k))),
                                       ("contains", lambda s: bool(s.contains(k))), ("is_dir", lambda s: bool(s.is_dir(k))),
-                                      ("listdir", lambda s: sorted(s.listdir(k) or [])), ("keys", lambda s: sorted(s.keys())),
+                                      ("listdir", lambda s: _exact_listing(s.listdir(k))), ("keys", lambda s: sorted(s.keys())),
                                       ("openbin_r", lambda s: _read_through(s, k))):
                         out["counters"]["reads_compared"] = out["counters"].get("reads_compared", 0) + 1
                         a = _try(rf, under)
@@ -463,6 +463,11 @@ def run_readonly(spec, out):
         model = SM.StoreModel(pinned=pinned)
         hist = SM.gen_history(rnd, model, [prefix + k for k in UNIVERSE], rnd.randint(4, 10))
         one_history(cfg, hist)
+
+
+def _exact_listing(r):
+    """exactly what was returned: 'nothing' (None, e.g. for a key that is no directory) is not an empty listing"""
+    return None if r is None else sorted(r)
 
 
 def _strip(md):
